@@ -304,6 +304,10 @@ func mapAttributeValueToTypes(attrs map[string]*dynamodb.AttributeValue) map[str
 
 	for key, attr := range attrs {
 		if attr == nil {
+			// an entry without a value is no attribute value: it is handed on without a data type, which
+			// every check of attribute values refuses (the SDK v2 client does the same)
+			mapItems[key] = &types.Item{}
+
 			continue
 		}
 
